@@ -21,7 +21,7 @@ def handler(job):
         Y = np.array(job["Y"], dtype=float).reshape(-1, 2)
         d = PersLandscapeExact(dgms=[X], hom_deg=0) - PersLandscapeExact(dgms=[Y], hom_deg=0)
         return {"sup": num(d.sup_norm()), "bott": num(persim.bottleneck(X, Y))}
-    mk = job["make"]
+    mk = job.get("make")
     def build(m):
         if m["t"] == "dgm":
             return PersLandscapeExact(dgms=[np.array(m["bars"], dtype=float).reshape(-1, 2)], hom_deg=0, compute=not m.get("lazy"))
@@ -35,6 +35,33 @@ def handler(job):
             return build(m["a"]) - build(m["b"])
         if m["t"] == "lin":
             return m["ca"] * build(m["a"]) + m["cb"] * build(m["b"])
+    if job["kind"] == "session":
+        # two shared objects; every derived landscape is built from THESE objects, in the order asked for
+        P, Q = build(job["a"]), build(job["b"])
+        out = {"cP": content(forced(P)), "cQ": content(forced(Q)), "n": {}, "sup": {}}
+        def norms_of(name, o):
+            out["n"][name] = {}
+            for p in job["ps"]:
+                with np.errstate(all="ignore"), warnings.catch_warnings():
+                    warnings.simplefilter("ignore")
+                    try:
+                        out["n"][name][str(p)] = num(o.p_norm(p))
+                    except Exception as e:
+                        out["n"][name][str(p)] = "raised:" + type(e).__name__
+            try:
+                out["sup"][name] = num(o.sup_norm())
+            except Exception as e:
+                out["sup"][name] = "raised:" + type(e).__name__
+        norms_of("P", P); norms_of("Q", Q)
+        c = job["c"][0] / job["c"][1]
+        mkd = {"D": lambda: P - Q, "E": lambda: Q - P, "Z": lambda: P - P, "H": lambda: (c * P if job.get("rmul") else P * c), "S": lambda: P + Q}
+        for name in job["order"]:
+            try:
+                norms_of(name, mkd[name]())
+            except Exception as e:
+                out["n"][name] = {str(p): "raised:" + type(e).__name__ for p in job["ps"]}; out["sup"][name] = "raised:" + type(e).__name__
+        norms_of("P2", P); norms_of("Q2", Q)
+        return out
     o = build(mk)
     if isinstance(o, PersLandscapeExact) and not mk.get("lazy"):
         o.compute_landscape()
